@@ -147,7 +147,8 @@ macro_rules! acc_type {
                         let mut buf = Al([S::fb(!a4[0].tb()); 12]);
                         let off = k % 4;
                         buf.0[off..off + N].copy_from_slice(&an);
-                        return (V::from_slice(&buf.0[off..off + N + (k / 4).min(3)]), model);
+                        // black_box: the load has to be a real one from an address the optimiser knows nothing about
+                        return (V::from_slice(std::hint::black_box(&buf.0[off..off + N + (k / 4).min(3)])), model);
                     }
                     "free-fn" => return (glam::$free($(an[$i]),+), model),
                     "const" => {
